@@ -11,9 +11,14 @@ git -C /repo archive HEAD | tar -x -C $D
 # uncommitted working tree edits of /repo are part of "the current tree"
 git -C /repo diff HEAD -- . | (cd $D && patch -p1 -s >/dev/null 2>&1 || true)
 if [ "$MODE" = patch ]; then
-  (cd $D && patch -p1 -s < "$ARG") || { echo "patch failed"; rm -rf $D; exit 3; }
+  (cd $D && patch -p1 -s < "$(cd /verif && realpath "$ARG")") || { echo "patch failed"; rm -rf $D; exit 3; }
 elif [ "$MODE" = revert ]; then
-  git -C /repo show "$ARG" -- . | (cd $D && patch -R -p1 -s) || { echo "revert failed"; rm -rf $D; exit 3; }
+  # three-way revert in a throw-away worktree (later fixes may touch neighbouring lines), result copied to $D
+  W=/var/tmp/sfcv-wt-$$-$RANDOM
+  git -C /repo worktree add -q --detach $W HEAD && git -C $W revert --no-commit "$ARG" >/dev/null 2>&1 \
+    || { echo "revert failed"; git -C /repo worktree remove --force $W; rm -rf $D; exit 3; }
+  rm -rf $D/sfc_models && cp -r $W/sfc_models $D/sfc_models
+  git -C /repo worktree remove --force $W
 elif [ "$MODE" = none ]; then :
 fi
 if [ "${RUN_SUITE:-0}" = 1 ]; then
